@@ -81,8 +81,17 @@ impl<'a, 'b> MCTPSMBusPacket<'a, 'b> {
     /// Finalise the creation of the SMBus packet
     ///
     /// Currently this just sets the total byte count.
+    /// Returns true if the length of the packet can be described by the one
+    /// byte SMBus byte count.
+    pub fn fits_byte_count(&self) -> bool {
+        self.len() - 4 <= u8::MAX as usize
+    }
+
     fn finalise(&mut self) {
-        self.smbus_header.set_byte_count(self.len() as u8 - 4);
+        // The byte count doesn't include the destination address, command
+        // code, byte count or PEC. Callers must check `fits_byte_count()`
+        // before using the packet.
+        self.smbus_header.set_byte_count((self.len() - 4) as u8);
     }
 }
 
